@@ -5,3 +5,4 @@ pub mod its;
 pub mod refs;
 pub mod report;
 pub mod world;
+pub mod xcheck;
